@@ -11,7 +11,7 @@ traces.
 """
 import copy, json, os
 
-from vf import check, common, gen, observe, tlc
+from vf import check, common, gen, observe, simulate, tlc
 from vf.common import MachineryError
 
 PROP = "C12"
@@ -215,15 +215,26 @@ def run(tier):
     neq = len(traces)
     # scope traces
     sets = [[], ["a"], ["a", "b"], ["_generated"]]
+    # spec -> code: operation sequences generated by TLC from Ignore.tla (up to 14 operations), then seeded random ones
+    plans = []
+    amap = {"Set": "set", "Enter": "enter", "ExitOk": "exit_ok", "ExitErr": "exit_err", "ExitBase": "exit_base"}
+    for beh in simulate.behaviours("Ignore", "Sim_Ignore.cfg", 150 if not thorough else 1500, 14, ctx.seed + 5):
+        plans.append((sorted(beh[0][2]["ignored"]), [(amap[a], sorted(args[0]) if args else []) for a, args, st in beh[1:] if a in amap]))
+    ctx.extra["scope_behaviours_simulated_by_tlc"] = len(plans)
     for _ in range(300 if not thorough else 3000):
-        init = ctx.rnd.choice(sets)
+        plans.append((ctx.rnd.choice(sets), None))
+    for init, planned in plans:
         setter(init)
         ops, cms = [], []
-        for _ in range(ctx.rnd.randint(1, 8)):
-            kind = ctx.rnd.choice(["set", "enter", "enter", "exit_ok", "exit_err", "exit_base"])
+        steps = planned if planned is not None else [None] * ctx.rnd.randint(1, 8)
+        for step in steps:
+            if step is not None:
+                kind, arg = step
+            else:
+                kind = ctx.rnd.choice(["set", "enter", "enter", "exit_ok", "exit_err", "exit_base"])
+                arg = ctx.rnd.choice(sets)
             if kind in ("exit_ok", "exit_err", "exit_base") and not cms:
                 kind = "enter"
-            arg = ctx.rnd.choice(sets)
             try:
                 if kind == "set":
                     setter(arg)
